@@ -210,3 +210,51 @@ func VxC09ClauseInjective() {
 		}
 	}
 }
+
+// vxFloatToken: the lexer's FLOAT token, '-'? DIGIT+ '.' DIGIT+ EXPONENT? with EXPONENT = ('e'|'E') ('+'|'-')? DIGIT+.
+func vxFloatToken(s string) bool {
+	i := 0
+	if i < len(s) && s[i] == '-' {
+		i++
+	}
+	digits := func() bool {
+		j := i
+		for i < len(s) && s[i] >= '0' && s[i] <= '9' {
+			i++
+		}
+		return i > j
+	}
+	if !digits() || i >= len(s) || s[i] != '.' {
+		return false
+	}
+	i++
+	if !digits() {
+		return false
+	}
+	if i < len(s) && (s[i] == 'e' || s[i] == 'E') {
+		i++
+		if i < len(s) && (s[i] == '+' || s[i] == '-') {
+			i++
+		}
+		if !digits() {
+			return false
+		}
+	}
+	return i == len(s)
+}
+
+// VxC09Float: non-integral float constants from a list of boundary magnitudes (strconv's shortest
+// float printing cannot be run on a symbolic float): the printed form is a FLOAT token; on the
+// concrete native run it also goes through the real parser and comes back equal.
+func VxC09Float() {
+	list := []float64{0.5, -2.25, 1.5e-10, 1e-10, -3e-12, 9e-10, 1e-9, 7e-200, 5e-324, -5e-324, 123456.789, 1.0000000000000002, 0.1, 1e-7, 1000000000000000.5, 4503599627370495.5}
+	f := list[vxChoose("float", len(list))]
+	c := ast.Float64(f)
+	s := c.String()
+	vxObserve("printed", s)
+	vxReach("printed")
+	vxAssert(vxFloatToken(s), "printed-float-is-a-float-token")
+	if !vxSymbolic() {
+		vxAssert(vxThroughParser(c), "float-roundtrip-through-parser")
+	}
+}
